@@ -54,7 +54,7 @@ USER_AGENT = {
 LATEST_VERSION = 1901
 
 LANGUAGES = [
-	"en-US", "en-GB", "ja", "fr", "de", "es-419", "es", "it", "nl"
+	"en-US", "en-GB", "ja", "fr", "de", "es-419", "es", "it", "nl",
 	"fr-CA", "pt", "ru", "zh-Hans", "zh-Hant", "ko", "pt-BR"
 ]
 
